@@ -261,7 +261,7 @@ structure Cie where
   daf : Int
   rar : Nat
   instr : Rd
-  deriving Repr
+  deriving Repr, DecidableEq, Inhabited
 
 /-- the loop of `Augmentation::parse` over the characters of the augmentation string -/
 def augLoop (m : Mode) (e : Endian) (bases : Bases) (asz : Nat) :
@@ -365,7 +365,7 @@ structure PartialFde where
   format : Format
   cieOffset : Nat
   rest : Rd
-  deriving Repr
+  deriving Repr, DecidableEq, Inhabited
 
 /-- `FrameDescriptionEntry` -/
 structure Fde where
@@ -378,7 +378,7 @@ structure Fde where
   /-- `lsda()` -/
   lsda : Option Ptr
   instr : Rd
-  deriving Repr
+  deriving Repr, DecidableEq, Inhabited
 
 /-- `PartialFrameDescriptionEntry::from_prefix` -/
 def partialFromPrefix (c : Cfg) (p : Prefix) : Out PartialFde :=
